@@ -53,10 +53,16 @@ fn process_mesh_assets(
     let Ok(mut map) = sync.meshes_to_apply.write() else {
         return;
     };
+    let mut applied = Vec::new();
     for (id, mesh) in map.drain() {
+        applied.push(id);
         sync_tracker.push_network_handle_change(id);
         let id: AssetId<Mesh> = AssetId::Uuid { uuid: id };
         meshes.insert(id, bin_to_mesh(&mesh));
+    }
+    // still holding the lock: a download that completes now is counted after this
+    for id in applied {
+        sync.download_applied(SyncAssetType::Mesh, &id);
     }
 }
 
@@ -68,13 +74,19 @@ fn process_image_assets(
     let Ok(mut map) = sync.images_to_apply.write() else {
         return;
     };
+    let mut applied = Vec::new();
     for (id, image) in map.drain() {
+        applied.push(id);
         sync_tracker.push_network_handle_change(id);
         let id: AssetId<Image> = AssetId::Uuid { uuid: id };
         let Some(img) = bin_to_image(&image) else {
             continue;
         };
         images.insert(id, img);
+    }
+    // still holding the lock: a download that completes now is counted after this
+    for id in applied {
+        sync.download_applied(SyncAssetType::Image, &id);
     }
 }
 
@@ -86,7 +98,9 @@ fn process_audio_assets(
     let Ok(mut map) = sync.audios_to_apply.write() else {
         return;
     };
+    let mut applied = Vec::new();
     for (id, audio) in map.drain() {
+        applied.push(id);
         sync_tracker.push_network_handle_change(id);
         let id: AssetId<AudioSource> = AssetId::Uuid { uuid: id };
         audios.insert(
@@ -96,11 +110,25 @@ fn process_audio_assets(
             },
         );
     }
+    // still holding the lock: a download that completes now is counted after this
+    for id in applied {
+        sync.download_applied(SyncAssetType::Audio, &id);
+    }
 }
 
 type MeshCache = Arc<RwLock<HashMap<Uuid, Vec<u8>>>>;
 type ImageCache = Arc<RwLock<HashMap<Uuid, Vec<u8>>>>;
 type AudioCache = Arc<RwLock<HashMap<Uuid, Vec<u8>>>>;
+/// downloads requested and not yet applied: how many are under way and the url of the latest request
+type PendingDownloads = Arc<RwLock<HashMap<(u8, Uuid), (usize, String)>>>;
+
+fn class_of(asset_type: &SyncAssetType) -> u8 {
+    match asset_type {
+        SyncAssetType::Mesh => 0,
+        SyncAssetType::Image => 1,
+        SyncAssetType::Audio => 2,
+    }
+}
 
 #[derive(Resource)]
 pub(crate) struct SyncAssetTransfer {
@@ -113,6 +141,7 @@ pub(crate) struct SyncAssetTransfer {
     images_to_apply: ImageCache,
     audios: AudioCache,
     audios_to_apply: AudioCache,
+    pending: PendingDownloads,
     max_transfer: usize,
 }
 
@@ -135,6 +164,7 @@ impl SyncAssetTransfer {
         let images_to_apply = Arc::new(RwLock::new(HashMap::<Uuid, Vec<u8>>::new()));
         let audios = Arc::new(RwLock::new(HashMap::<Uuid, Vec<u8>>::new()));
         let audios_to_apply = Arc::new(RwLock::new(HashMap::<Uuid, Vec<u8>>::new()));
+        let pending = Arc::new(RwLock::new(HashMap::new()));
 
         let result = Self {
             base_url,
@@ -147,6 +177,7 @@ impl SyncAssetTransfer {
             images_to_apply,
             audios,
             audios_to_apply,
+            pending,
         };
 
         let (server_tx, server_rx) = channel::<Request>();
@@ -171,7 +202,15 @@ impl SyncAssetTransfer {
         let audios_to_apply = self.audios_to_apply.clone();
         debug!("Queuing request for {:?}:{} at {}", asset_type, id, url);
         let max_transfer = self.max_transfer;
+        let key = (class_of(&asset_type), id);
+        if let Ok(mut pending) = self.pending.write() {
+            let entry = pending.entry(key).or_insert((0, url.clone()));
+            entry.0 += 1;
+            entry.1 = url.clone();
+        }
+        let pending = self.pending.clone();
         self.download_pool.execute(move || {
+            let mut delivered = false;
             if let Ok(response) = ureq::get(url.as_str()).call() {
                 let len = response
                     .header("Content-Length")
@@ -192,6 +231,7 @@ impl SyncAssetTransfer {
                                     Ok(mut map) => {
                                         debug!("Received mesh {} with size {}", id, len);
                                         map.insert(id, bytes);
+                                        delivered = true;
                                         break;
                                     }
                                     Err(_) => lock = meshes_to_apply.write(),
@@ -206,6 +246,7 @@ impl SyncAssetTransfer {
                                     Ok(mut map) => {
                                         debug!("Received image {} with size {}", id, len);
                                         map.insert(id, bytes);
+                                        delivered = true;
                                         break;
                                     }
                                     Err(_) => lock = images_to_apply.write(),
@@ -220,6 +261,7 @@ impl SyncAssetTransfer {
                                     Ok(mut map) => {
                                         debug!("Received audio {} with size {}", id, len);
                                         map.insert(id, bytes);
+                                        delivered = true;
                                         break;
                                     }
                                     Err(_) => lock = audios_to_apply.write(),
@@ -230,7 +272,45 @@ impl SyncAssetTransfer {
                     }
                 }
             }
+            // this download is over; a failed one leaves nothing to apply
+            let waiting = match key.0 {
+                0 => meshes_to_apply.read().map(|m| m.contains_key(&id)),
+                1 => images_to_apply.read().map(|m| m.contains_key(&id)),
+                _ => audios_to_apply.read().map(|m| m.contains_key(&id)),
+            }
+            .unwrap_or(false);
+            if let Ok(mut pending) = pending.write() {
+                if let Some(entry) = pending.get_mut(&key) {
+                    entry.0 = entry.0.saturating_sub(1);
+                    if entry.0 == 0 && !delivered && !waiting {
+                        pending.remove(&key);
+                    }
+                }
+            }
         });
+    }
+
+    /// The downloaded asset has been applied: forget the request unless another download of it is under way.
+    fn download_applied(&self, asset_type: SyncAssetType, id: &Uuid) {
+        let key = (class_of(&asset_type), *id);
+        if let Ok(mut pending) = self.pending.write() {
+            if pending.get(&key).is_some_and(|entry| entry.0 == 0) {
+                pending.remove(&key);
+            }
+        }
+    }
+
+    /// Assets of a class this peer has been told about and is still downloading, with the url it was given.
+    pub(crate) fn pending_downloads(&self, asset_type: SyncAssetType) -> Vec<(Uuid, String)> {
+        let class = class_of(&asset_type);
+        let Ok(pending) = self.pending.read() else {
+            return Vec::new();
+        };
+        pending
+            .iter()
+            .filter(|((c, _), _)| *c == class)
+            .map(|((_, id), (_, url))| (*id, url.clone()))
+            .collect()
     }
 
     pub(crate) fn serve_mesh(&mut self, id: &Uuid, mesh: &Mesh) -> String {
